@@ -43,6 +43,9 @@ type c16Conn struct {
 }
 
 type c16World struct {
+	// headStart: number of messages of the first connection that drive forwards
+	// before it touches the other connections (0 = none).
+	headStart        int
 	c                *core.Case
 	nodes            []*vnet.Node
 	conns            []*c16Conn
@@ -92,7 +95,29 @@ func (w *c16World) drive(cs []*c16Conn, lockstep bool, failAt int) {
 			break
 		}
 		pick := 0
-		if lockstep {
+		if w.headStart > 0 && forwarded[cs[0]] < w.headStart {
+			// Head start: the first connection gets its first messages through
+			// before anything of the others is forwarded.
+			var own []src
+			for _, s := range ready {
+				if s.cc == cs[0] {
+					own = append(own, s)
+				}
+			}
+			if len(own) > 0 {
+				ready = own
+			} else {
+				w.headStart = 0
+			}
+		}
+		if w.headStart > 0 && forwarded[cs[0]] < w.headStart {
+			pick = 0
+			for i, s := range ready {
+				if sentBy[s.end] < sentBy[ready[pick].end] {
+					pick = i
+				}
+			}
+		} else if lockstep {
 			// Lock-step: always the end that has forwarded the fewest messages so far.
 			for i, s := range ready {
 				if sentBy[s.end] < sentBy[ready[pick].end] {
